@@ -191,7 +191,7 @@ def c04_7(ctx):
     """the digest a signature operation checks is computed for THAT operation: the cache of digests lives for one
     CHECKSIG / CHECKMULTISIG call (FindAndDelete makes the legacy digest depend on the signatures of the operation)"""
     from rules import C03
-    C03.c03_13(ctx)
+    C03.guarded(C03.c03_13)(ctx)        # spelling-sensitive in places: subordinate to the reference comparison, as in C03
 
 
 OBLIGATIONS = [
